@@ -137,6 +137,80 @@ macro_rules! proto {
                 })
             }
 
+            /// inherent `System::decode` + `System::encode`
+            pub fn system(data: &[u8]) -> Got {
+                finish(|| {
+                    let mut warn: Vec<Warning> = Vec::new();
+                    let mut p = Unpacker::new(data);
+                    let mut got = Got { size: -1, enc: "none".into(), ..Got::default() };
+                    match g::msg::System::decode(&mut warn, &mut p) {
+                        Ok(m) => {
+                            got.r = "ok".into();
+                            got.sec = "system".into();
+                            got.tname = debug_name(&format!("{:?}", m));
+                            let enc = catch(|| {
+                                let mut buf: Vec<u8> = Vec::with_capacity(CAP);
+                                with_packer(&mut buf, |p| m.encode(p).map(|b| b.to_vec()))
+                            });
+                            match enc {
+                                Ok(Ok(b)) => {
+                                    got.enc = "ok".into();
+                                    got.re = b.iter().map(|&x| x as i64).collect();
+                                }
+                                Ok(Err(_)) => got.enc = "cap".into(),
+                                Err(msg) => {
+                                    got.enc = "panic".into();
+                                    got.panic = format!("{} at {}", msg, vh_common::last_panic_location());
+                                }
+                            }
+                        }
+                        Err(e) => {
+                            got.r = "err".into();
+                            got.e = err_class(&e).into();
+                        }
+                    }
+                    got.w = warn_names(&warn);
+                    got
+                })
+            }
+
+            /// inherent `Game::decode` + `Game::encode`
+            pub fn game(data: &[u8]) -> Got {
+                finish(|| {
+                    let mut warn: Vec<Warning> = Vec::new();
+                    let mut p = Unpacker::new(data);
+                    let mut got = Got { size: -1, enc: "none".into(), ..Got::default() };
+                    match g::msg::Game::decode(&mut warn, &mut p) {
+                        Ok(m) => {
+                            got.r = "ok".into();
+                            got.sec = "game".into();
+                            got.tname = debug_name(&format!("{:?}", m));
+                            let enc = catch(|| {
+                                let mut buf: Vec<u8> = Vec::with_capacity(CAP);
+                                with_packer(&mut buf, |p| m.encode(p).map(|b| b.to_vec()))
+                            });
+                            match enc {
+                                Ok(Ok(b)) => {
+                                    got.enc = "ok".into();
+                                    got.re = b.iter().map(|&x| x as i64).collect();
+                                }
+                                Ok(Err(_)) => got.enc = "cap".into(),
+                                Err(msg) => {
+                                    got.enc = "panic".into();
+                                    got.panic = format!("{} at {}", msg, vh_common::last_panic_location());
+                                }
+                            }
+                        }
+                        Err(e) => {
+                            got.r = "err".into();
+                            got.e = err_class(&e).into();
+                        }
+                    }
+                    got.w = warn_names(&warn);
+                    got
+                })
+            }
+
             pub fn connless(data: &[u8]) -> Got {
                 finish(|| {
                     let mut warn: Vec<Warning> = Vec::new();
@@ -238,6 +312,24 @@ fn run(proto: &str, entry: &str, ord: i64, uuid: &[u8], data: &[i64]) -> Got {
                 "0.6" => p06::connless(&bytes),
                 "0.7" => p07::connless(&bytes),
                 _ => pdd::connless(&bytes),
+            }
+        }
+        "system" => {
+            let bytes: Vec<u8> = data.iter().map(|&x| x as u8).collect();
+            match proto {
+                "0.5" => p05::system(&bytes),
+                "0.6" => p06::system(&bytes),
+                "0.7" => p07::system(&bytes),
+                _ => pdd::system(&bytes),
+            }
+        }
+        "game" => {
+            let bytes: Vec<u8> = data.iter().map(|&x| x as u8).collect();
+            match proto {
+                "0.5" => p05::game(&bytes),
+                "0.6" => p06::game(&bytes),
+                "0.7" => p07::game(&bytes),
+                _ => pdd::game(&bytes),
             }
         }
         _ => {
@@ -356,6 +448,7 @@ fn compare(vec: &Value, got: &Got) -> Vec<(String, String)> {
 struct Tracer {
     out: Option<std::io::BufWriter<std::fs::File>>,
     logged: u64,
+    triple: bool,
     seq: u64,
     bulk_n: u64,
     bulk_ok: u64,
@@ -366,6 +459,13 @@ struct Tracer {
 
 impl Tracer {
     fn event(&mut self, proto: &str, src: &str, entry: &str, ord: i64, uuid: &[i64], data: &[i64], log: bool) -> Got {
+        if entry == "msg" && self.triple {
+            self.event1(proto, src, "system", ord, uuid, data, log);
+            self.event1(proto, src, "game", ord, uuid, data, log);
+        }
+        self.event1(proto, src, entry, ord, uuid, data, log)
+    }
+    fn event1(&mut self, proto: &str, src: &str, entry: &str, ord: i64, uuid: &[i64], data: &[i64], log: bool) -> Got {
         let ub: Vec<u8> = uuid.iter().map(|&x| x as u8).collect();
         vh_common::set_case(&json!({"proto": proto, "entry": entry, "ord": ord, "uuid": uuid, "data": data}).to_string());
         let g = run(proto, entry, ord, &ub, data);
@@ -414,7 +514,7 @@ fn main() {
         // raw inputs {entry, ord, uuid, data} on stdin -> one trace event per line on stdout
         vh_common::quiet_panics();
         vh_common::start_watchdog();
-        let mut tr = Tracer { out: None, logged: 0, seq: 0, bulk_n: 0, bulk_ok: 0, bulk_err: 0, bulk_panic: 0, panics: Vec::new() };
+        let mut tr = Tracer { out: None, logged: 0, triple: false, seq: 0, bulk_n: 0, bulk_ok: 0, bulk_err: 0, bulk_panic: 0, panics: Vec::new() };
         let stdin = std::io::stdin();
         let mut n = 0u64;
         for line in stdin.lock().lines() {
@@ -452,11 +552,11 @@ fn main() {
 
     let mut tr = Tracer {
         out: if trace_path.is_empty() { None } else { Some(std::io::BufWriter::new(std::fs::File::create(&trace_path).unwrap())) },
-        logged: 0, seq: 0, bulk_n: 0, bulk_ok: 0, bulk_err: 0, bulk_panic: 0, panics: Vec::new(),
+        logged: 0, triple: true, seq: 0, bulk_n: 0, bulk_ok: 0, bulk_err: 0, bulk_panic: 0, panics: Vec::new(),
     };
     // how many derived inputs are logged individually (validated event by event by TLC)
-    let mut trunc_log_budget: i64 = if thorough { 12_000 } else { 900 };
-    let mut mut_log_budget: i64 = if thorough { 6_000 } else { 300 };
+    let mut trunc_log_budget: i64 = if thorough { 9_000 } else { 500 };
+    let mut mut_log_budget: i64 = if thorough { 4_000 } else { 150 };
     let muts_per_vec = if thorough { 6 } else { 2 };
 
     let stdin = std::io::stdin();
@@ -486,7 +586,7 @@ fn main() {
                         continue;
                     }
                 }
-            } else if t.len() == 2 && (t[0] == "U" || t[0] == "N") {
+            } else if t.len() == 2 && (t[0] == "U" || t[0] == "N" || t[0] == "K") {
                 let v: Value = serde_json::from_str(&t[1]).unwrap_or(Value::Null);
                 writeln!(so, "{}", json!({"t": t[0], "v": v})).unwrap();
                 continue;
@@ -510,7 +610,9 @@ fn main() {
         let is_canonical_vec = vec["id"][2] == 0 && vec["id"][3] == 1;
 
         // direction A
+        tr.triple = is_canonical_vec || thorough;
         let got = tr.event(&proto, "vec", &entry, ord, &uuid, &data, is_canonical_vec || class != "canon" || thorough);
+        tr.triple = true;
         let mism = compare(&vec, &got);
         if !mism.is_empty() {
             n_mismatch += 1;
@@ -564,7 +666,7 @@ fn main() {
 
     // direction B: random inputs. (a) random bodies behind a valid identifier, (b) random bytes.
     let n_rand = if thorough { 40 } else { 6 };
-    let mut rand_log_budget: i64 = if thorough { 4_000 } else { 300 };
+    let mut rand_log_budget: i64 = if thorough { 3_000 } else { 200 };
     for (entry, ord, uuid, data) in canon_seen.iter() {
         for _ in 0..n_rand {
             let len = rng.gen_range(0..(data.len() * 2 + 4));
@@ -596,7 +698,7 @@ fn main() {
         }
     }
     let n_pure = if thorough { 20_000 } else { 2_000 };
-    let mut pure_log_budget: i64 = if thorough { 2_000 } else { 150 };
+    let mut pure_log_budget: i64 = if thorough { 2_000 } else { 100 };
     for i in 0..n_pure {
         let len = rng.gen_range(0..40);
         let entry = if i % 3 == 2 { "connless" } else { "msg" };
